@@ -46,7 +46,7 @@ theorem pickViolated_fold_some (s : SState) : ∀ (rows : List (Var × Jars)) (b
       if ltLo s r.1 || gtHi s r.1 then
         match best with
         | none => some r.1
-        | some b => if b < r.1 then some r.1 else some b
+        | some b => if r.1 < b then some r.1 else some b
       else best) best = some xi →
     best = some xi ∨ ∃ r ∈ rows, r.1 = xi ∧ (ltLo s r.1 || gtHi s r.1) = true := by
   intro rows
@@ -71,7 +71,7 @@ theorem pickViolated_fold_none (s : SState) : ∀ (rows : List (Var × Jars)) (b
       if ltLo s r.1 || gtHi s r.1 then
         match best with
         | none => some r.1
-        | some b => if b < r.1 then some r.1 else some b
+        | some b => if r.1 < b then some r.1 else some b
       else best) best = none →
     best = none ∧ ∀ r ∈ rows, (ltLo s r.1 || gtHi s r.1) = false := by
   intro rows
